@@ -554,6 +554,8 @@ def store_history(rng, nsteps):
         define("make-counter2", lam([], [var("next!")], defs=[("next!", lam([], [set_("count", app("+", var("count"), lit(1))), var("count")])), ("count", lit(0))])),
         define("count", lit(100)),
         define("make-acc", lam(["total"], [lam(["k"], [set_("total", app("+", var("total"), var("k"))), var("total")])])),
+        # the state is the REST parameter of the maker (its only formal): every call of the maker binds it afresh
+        define("make-acc-rest", lam([], [lam(["k"], [set_("totals", app("cons", app("+", var("k"), app("car", var("totals"))), var("totals"))), app("car", var("totals"))])], rest="totals")),
         define("make-shared", lam([], [app("cons", lam([], [set_("n", app("+", var("n"), lit(1))), var("n")]), lam([], [var("n")]))], defs=[("n", lit(0))])),
         define("g", lit(0)),
         define("bump-g", lam([], [set_("g", app("+", var("g"), lit(1))), var("g")])),
@@ -646,7 +648,7 @@ def store_history(rng, nsteps):
                 forms.append(app(c))
         elif op == "newacc":
             n = "a%d" % rng.randint(1, 3)
-            forms.append(define(n, app("make-acc", lit(rng.randint(0, 9)))))
+            forms.append(define(n, app(rng.choice(["make-acc", "make-acc-rest"]), lit(rng.randint(0, 9)))))
             if n not in accs: accs.append(n)
         elif op == "newshared":
             n = "s%d" % rng.randint(1, 2)
